@@ -228,6 +228,32 @@ Definition prop_closed (c : tg_case) : bool :=
       end
   | _ => true
   end.
+(** C02, "every cycle between generated types passes through heap indirection": the by-value graph
+    of the parsed observed module is acyclic ([Checkers/Sem.v], [sizedb]) *)
+Definition prop_sized (c : tg_case) : bool :=
+  let s := settings_of (tg_spec c) in
+  match tg_gen c with
+  | OOk t =>
+      match parse_module t with
+      | Some m => sizedb (s_root s) (fe_alloc (fenv_of s)) (fe_compact (fenv_of s)) true m
+      | None => false
+      end
+  | _ => true
+  end.
+
+(** hit counter: the observed module is recursive at all (some item reaches itself once the heap
+    types are read as transparent too), so [prop_sized] had a cycle to see through *)
+Definition hyp_recursive_items (c : tg_case) : bool :=
+  let s := settings_of (tg_spec c) in
+  match tg_gen c with
+  | OOk t =>
+      match parse_module t with
+      | Some m => negb (sizedb (s_root s) (fe_alloc (fenv_of s)) (fe_compact (fenv_of s)) false m)
+      | None => false
+      end
+  | _ => false
+  end.
+
 (** ** C07 on observed outputs *)
 Definition mentions_path (root : string) (p : list string) (t : pty) : bool :=
   existsb (fun ls : bool * list (string * list pty) =>
@@ -631,6 +657,10 @@ Definition prop_same_tokens (p : tg_pair) : bool :=
     (* two independent de-duplication runs of one registry: same registry, same tokens *)
     list_eqb path_eqb (map (fun e => t_path (snd e)) (tg_reg (tp_a p))) (map (fun e => t_path (snd e)) (tg_reg (tp_b p))) &&
     obs_tokens_eqb (tg_gen (tp_a p)) (tg_gen (tp_b p))
+  else if String.eqb (tp_kind p) "last-wins" then
+    (* one source inserted twice with different targets, in both orders: the settings differ as
+       maps, nothing is demanded of the two outputs beyond [corr_pair] *)
+    true
   else if negb (hyp_c17 p) then true
   else if String.eqb (tp_kind p) "renumbered" then
     obs_tokens_eqb (tg_gen (tp_a p)) (tg_gen (tp_b p))
@@ -666,6 +696,46 @@ Definition sorted_derives_case (c : tg_case) : bool :=
 
 Definition prop_sorted_derives (p : tg_pair) : bool :=
   sorted_derives_case (tp_a p) && sorted_derives_case (tp_b p).
+
+(** C06, "attribute lists in the output are sorted and free of duplicates": the non-derive, non-doc
+    attributes of every observed item are STRICTLY increasing for the implementation's sort key,
+    the token string of the whole attribute ([attr_sort_key], recomputed from the observed tokens) *)
+Definition sorted_attrs_case (c : tg_case) : bool :=
+  match items_of c with
+  | Some its =>
+      forallb (fun pit : list string * pitem =>
+                 strictly_sorted (map attr_sort_key (user_attrs (pi_attrs (snd pit))))) its
+  | None => true
+  end.
+
+Definition prop_sorted_attrs (p : tg_pair) : bool :=
+  sorted_attrs_case (tp_a p) && sorted_attrs_case (tp_b p).
+
+(** obligation on the checker itself: the key [attr_sort_key] recomputes from flattened tokens is the
+    string the real [quote!(#attr).to_string()] gave for every attribute configured in this case
+    (the harness ships both) *)
+Definition attr_keys_case (c : tg_case) : bool :=
+  let dr := s_dreg (settings_of (tg_spec c)) in
+  let ds := dr_default dr :: map snd (dr_specific dr) ++ map snd (dr_recursive dr) in
+  forallb (fun d => forallb (fun kt : string * tokens => String.eqb (render_tokens (snd kt)) (fst kt)) (d_attrs d)) ds.
+Definition corr_attr_keys (p : tg_pair) : bool := attr_keys_case (tp_a p) && attr_keys_case (tp_b p).
+
+(** hit counters *)
+Definition hyp_attrs_ge2 (p : tg_pair) : bool :=
+  match items_of (tp_a p) with
+  | Some its => existsb (fun pit : list string * pitem =>
+                           Nat.leb 2 (List.length (user_attrs (pi_attrs (snd pit))))) its
+  | None => false
+  end.
+(** the pair registers one substitute source twice with two targets, in the two orders: the last
+    insertion wins, so the outputs are NOT required to agree (only the model has to reproduce both) *)
+Definition hyp_last_wins_differ (p : tg_pair) : bool :=
+  String.eqb (tp_kind p) "last-wins" &&
+  negb (obs_tokens_eqb (tg_gen (tp_a p)) (tg_gen (tp_b p))).
+Definition hyp_subs_permuted (p : tg_pair) : bool :=
+  String.eqb (tg_tag (tp_a p)) "permuted-subs" &&
+  Nat.leb 2 (List.length (filter (fun kv : list string * substitute => negb (starts_with "bitvec" (hd "" (fst kv))))
+                                 (s_subs (settings_of (tg_spec (tp_a p)))))).
 
 (** ** C09: frame relations between two token lists.
     [erase] removes the tokens a switch governs; what remains must be equal. *)
@@ -778,6 +848,73 @@ Definition registry_idents (r : registry) : list string :=
               | _ => []
               end) r.
 
+(** C09, codec attributes counted as ATTRIBUTES of the parsed module ([# [ codec ( ... ) ]] on
+    items, fields, variants, variant fields), so that the word [codec] in configured paths
+    ([::codec::Compact], [::codec::CompactAs], [::codec::Encode]) does not matter: with codec
+    attributes off the only codec attributes are item attributes the caller configured verbatim *)
+Definition configured_attrs (s : settings) : list tokens :=
+  let dr := s_dreg s in
+  let ds := dr_default dr :: map snd (dr_specific dr) ++ map snd (dr_recursive dr) in
+  flat_map (fun d => map snd (d_attrs d)) ds.
+
+Definition no_codec_attr (attrs : list tokens) : bool := negb (existsb (attr_is "codec") attrs).
+
+Definition codec_off_no_codec_attrs (s : settings) (m : pmod) : bool :=
+  let user := configured_attrs s in
+  forallb (fun pit : list string * pitem =>
+             let it := snd pit in
+             forallb (fun a => if attr_is "codec" a
+                               then existsb (tokens_eqb ("#" :: "[" :: a ++ ["]"])) user else true) (pi_attrs it) &&
+             forallb (fun pf => no_codec_attr (pf_attrs pf)) (body_fields (pi_body it)) &&
+             forallb (fun pv => no_codec_attr (pv_attrs pv) &&
+                                forallb (fun pf => no_codec_attr (pf_attrs pf)) (body_fields (pv_body pv)))
+                     (pi_variants it)) (all_items m []).
+
+Definition count_codec_attrs (m : pmod) : nat :=
+  fold_right (fun pit acc =>
+                let it : pitem := snd pit in
+                let cnt (l : list tokens) := List.length (filter (attr_is "codec") l) in
+                (cnt (pi_attrs it) +
+                 fold_right (fun pf a => (cnt (pf_attrs pf) + a)%nat) O (body_fields (pi_body it)) +
+                 fold_right (fun pv a => (cnt (pv_attrs pv) +
+                                          fold_right (fun pf a' => (cnt (pf_attrs pf) + a')%nat) O (body_fields (pv_body pv)) + a)%nat)
+                            O (pi_variants it) + acc)%nat) O (all_items m []).
+
+(** C09, "with codec attributes on every compact field has its marker".  A compact field: the
+    registry type of the field - looked through one [Cow], as the implementation does - is a
+    [TDCompact] entry, and the field is not typed by a parameter of its own item (the field's type id
+    is the id bound to a parameter whose name is the recorded type name, or no type name is
+    recorded: then the field prints the parameter and the instantiation supplies the wrapper).
+    Codec on: the marker is there iff the field is a compact field; codec off: no marker at all. *)
+Definition param_typed (t : ty) (f : field) : bool :=
+  existsb (fun p => match tp_ty p with
+                    | Some i => N.eqb i (f_ty f) &&
+                                match f_type_name f with None => true | Some n => String.eqb n (tp_name p) end
+                    | None => false
+                    end) (t_params t).
+
+Definition is_compact_entry (r : registry) (id : N) : bool :=
+  match resolve r (uncow r id) with
+  | Some ft => match t_def ft with TDCompact _ => true | _ => false end
+  | None => false
+  end.
+
+Definition compact_markers_ok (r : registry) (codec : bool) (t : ty) (fs : list field) (pfs : list pfield) : bool :=
+  let pfs := filter (fun f => negb (is_marker_field f)) pfs in
+  Nat.eqb (List.length fs) (List.length pfs) &&
+  forallb (fun fp : field * pfield =>
+             let marked := has_attr compact_attr_toks (pf_attrs (snd fp)) in
+             if codec then
+               if param_typed t (fst fp) then negb marked
+               else Bool.eqb marked (is_compact_entry r (f_ty (fst fp)))
+             else negb marked) (combine fs pfs).
+
+Definition hyp_compact_fields (c : tg_case) : bool :=
+  let r := tg_reg c in
+  s_codec (settings_of (tg_spec c)) && hyp_gen_ok c &&
+  existsb (fun e => item_eligible (settings_of (tg_spec c)) (snd e) &&
+                    existsb (fun f => is_compact_entry r (f_ty f) && negb (param_typed (snd e) f)) (all_fields (snd e))) r.
+
 Definition switches_case (c : tg_case) : bool :=
   let r := tg_reg c in
   let s := settings_of (tg_spec c) in
@@ -796,6 +933,8 @@ Definition switches_case (c : tg_case) : bool :=
       match parse_module t with
       | None => false
       | Some m =>
+          (* codec off: no codec ATTRIBUTE other than item attributes configured verbatim *)
+          (if s_codec s then true else codec_off_no_codec_attrs s m) &&
           forallb (fun pit : list string * pitem =>
                      match first_with_path r (fst pit) with
                      | None => false
@@ -815,7 +954,11 @@ Definition switches_case (c : tg_case) : bool :=
                                                                        (map lit_string (v_docs (fst vp))) else true) &&
                                             (if s_codec s then option_eqb String.eqb (codec_index_of (pv_attrs (snd vp)))
                                                                           (Some (N_to_string (v_index (fst vp))))
-                                             else true)) (combine vs pvs)
+                                             else true) &&
+                                            compact_markers_ok r (s_codec s) ty (v_fields (fst vp))
+                                                               (body_fields (pv_body (snd vp)))) (combine vs pvs)
+                             | TDComposite fs =>
+                                 compact_markers_ok r (s_codec s) ty fs (body_fields (pi_body it))
                              | _ => true
                              end
                          end
@@ -825,6 +968,15 @@ Definition switches_case (c : tg_case) : bool :=
   end.
 
 Definition prop_switches (p : tg_pair) : bool := switches_case (tp_a p) && switches_case (tp_b p).
+
+(** hit counters: a side with codec attributes on and a compact field; a side with codec attributes
+    off whose configured paths contain the word [codec] (where only the attribute count speaks) *)
+Definition hyp_compact_marker (p : tg_pair) : bool := hyp_compact_fields (tp_a p) || hyp_compact_fields (tp_b p).
+Definition codec_off_dirty (c : tg_case) : bool :=
+  let s := settings_of (tg_spec c) in
+  negb (s_codec s) && hyp_gen_ok c &&
+  existsb (String.eqb "codec") (user_tokens s ++ registry_idents (tg_reg c) ++ [s_root s]).
+Definition hyp_codec_off_dirty (p : tg_pair) : bool := codec_off_dirty (tp_a p) || codec_off_dirty (tp_b p).
 
 (** hypothesis of [C09_root_rename]: the root ident occurs nowhere else in the inputs
     (registry identifiers -- path segments, field and variant names -- and user tokens) *)
